@@ -71,6 +71,7 @@ package asm
 //@   ensures a.generateText ==> all(k, int, EB_L0(a) <= k && k < len(a.lines) ==> (k == EB_L0(a) ==> a.lines[k].address == old(a.address)) && (k > EB_L0(a) ==> a.lines[k].address == a.lines[k-1].address+16))
 //@   ensures a.generateText && old(EB_PRE(a)) && len(b) <= 0x1000000 ==> all(k, int, EB_L0(a) <= k && k < len(a.lines) ==> int(a.lines[k].address-a.base) == old(a.n)+16*(k-EB_L0(a)))
 //@   ensures a.generateText && len(a.lines) > EB_L0(a) ==> a.lines[len(a.lines)-1].address+uint32(BC(a, len(a.lines)-1)) == a.address
+//@   ensures a.generateText ==> all(k, int, EB_L0(a) <= k && k < len(a.lines) ==> a.lines[k].address == old(a.address)+uint32(16*(k-EB_L0(a))))
 //@   assigns a.n, a.code[:], a.address, a.lines, a.baseSet
 //@   loop 1 invariant builderlen(s) >= 3 && (builderlen(s) > 3) == ((rangeindex+1)&15 != 0) && blen == len(b)
 //@   loop 1 invariant int(cl.asmLineType) == 7
@@ -83,6 +84,7 @@ package asm
 //@   loop 1 invariant all(k, int, EB_L0(a) <= k && k < len(a.lines) ==> (k == EB_L0(a) ==> a.lines[k].address == a.address) && (k > EB_L0(a) ==> a.lines[k].address == a.lines[k-1].address+16))
 //@   loop 1 invariant old(EB_PRE(a)) && len(b) <= 0x1000000 ==> all(k, int, EB_L0(a) <= k && k < len(a.lines) ==> int(a.lines[k].address-a.base) == a.n+16*(k-EB_L0(a)))
 //@   loop 1 invariant len(a.lines) > EB_L0(a) ==> a.lines[len(a.lines)-1].address+16 == cl.address
+//@   loop 1 invariant all(k, int, EB_L0(a) <= k && k < len(a.lines) ==> a.lines[k].address == a.address+uint32(16*(k-EB_L0(a))))
 //@   loop 1 modifies a.lines, s, cl
 //@ define EB_L0(a) (old(len(a.lines))+ite(old(a.baseSet), 1, 0))
 //@ define EB_PRE(a) (!isnil(a.code) && 0 <= a.n && a.n <= len(a.code) && len(a.code) <= 0x1000000 && a.address-a.base == uint32(a.n))
@@ -140,10 +142,10 @@ package asm
 //@   onpanic a.n == old(a.n) && a.address == old(a.address) && a.base == old(a.base) && a.flagsTracker == old(a.flagsTracker) && len(a.lines) == old(len(a.lines))
 //@   onpanic all(j, int, 0 <= j && j < len(a.code) ==> a.code[j] == old(a.code[j])) && all(k, string, has(a.labels, k) == old(has(a.labels, k)) && a.labels[k] == old(a.labels[k]))
 //@   ensures a.n == old(a.n)+e.n && a.address == e.address && a.base == e.base && a.baseSet == e.baseSet && a.flagsTracker == e.flagsTracker
-//@   ensures all(j, int, 0 <= j && j < e.n ==> a.code[old(a.n)+j] == e.code[j])
+//@   ensures all(j, int, old(a.n) <= j && j < old(a.n)+e.n ==> a.code[j] == e.code[j-old(a.n)])
 //@   ensures all(j, int, 0 <= j && j < len(a.code) && (j < old(a.n) || j >= old(a.n)+e.n) ==> a.code[j] == old(a.code[j]))
 //@   ensures len(a.lines) == old(len(a.lines))+len(e.lines)
-//@   ensures all(j, int, 0 <= j && j < old(len(a.lines)) ==> a.lines[j] == old(a.lines[j])) && all(j, int, 0 <= j && j < len(e.lines) ==> a.lines[old(len(a.lines))+j] == e.lines[j])
+//@   ensures all(j, int, 0 <= j && j < old(len(a.lines)) ==> a.lines[j] == old(a.lines[j])) && all(j, int, old(len(a.lines)) <= j && j < old(len(a.lines))+len(e.lines) ==> a.lines[j] == e.lines[j-old(len(a.lines))])
 //@   ensures all(k, string, has(a.labels, k) == (old(has(a.labels, k)) || has(e.labels, k)) && (has(e.labels, k) ==> a.labels[k] == e.labels[k]) && (!has(e.labels, k) ==> a.labels[k] == old(a.labels[k])))
 //@   ensures all(k, string, has(a.danglingS8, k) == (old(has(a.danglingS8, k)) || has(e.danglingS8, k)) && (has(e.danglingS8, k) ==> len(a.danglingS8[k]) == len(e.danglingS8[k])))
 //@   ensures all(k, string, all(j, int, has(e.danglingS8, k) && 0 <= j && j < len(e.danglingS8[k]) ==> a.danglingS8[k][j] == e.danglingS8[k][j]))
